@@ -1446,11 +1446,13 @@ class MPO(MPSGeometry):
                 j = i + k
                 IdL = self.get_IdL(j)
                 IdR = self.get_IdR(j)
-                if IdR is None:
-                    IdR = -1  # not equal to positive index
                 site_j = self.sites[j % L]
                 W = self.get_W(j)
                 W = W.transpose(['wL', 'wR', 'p', 'p*'])
+                if IdR is None:
+                    IdR = -1  # not equal to positive index
+                elif IdR < 0:  # e.g. MPO.__add__ stores IdR = -1; compared with indices from np.nonzero below
+                    IdR += W.shape[1]
                 op_basis_j = op_basis[j % len(op_basis)]
                 partial_R = [None] * W.get_leg('wR').ind_len
                 if k > 0 and IdL is not None:
